@@ -38,7 +38,8 @@ Record env := mkEnv {
   e_store_original : bool            (* TRAIT_SETATTR_ORIGINAL_VALUE (Expression, AdaptsTo): store the assigned object, not the validated one *)
 }.
 
-Inductive op := Assign (v : val) | Read | Delete.     (* obj.x = v, obj.x, del obj.x *)
+Inductive op := Assign (v : val) | Read | Delete     (* obj.x = v, obj.x, del obj.x *)
+              | QuietAssign (v : val).            (* obj.trait_set(trait_change_notify=False, x=v) / trait_setq *)
 Inductive outcome := Ok | TraitError | AttributeError.
 Definition call := (nat * oldv * val)%type.       (* handler id, old, new *)
 Record obs := mkObs {
@@ -110,6 +111,18 @@ Section WithEnv.
                   let changed := match m with MNone => true | _ => negb (old =? d) end in
                   let '(cs, sk) := if changed then notify (OVal old) d else ([], []) in
                   (Some d, mkObs Ok (Some d) (c0 ++ cs) (k0 ++ sk))
+            end
+        end
+    | QuietAssign v =>
+        (* has_traits.py trait_set l.1449-1458: _trait_change_notify(False); try: setattr finally: _trait_change_notify(True).
+           With HASTRAITS_NO_NOTIFY set, setattr_trait does everything but call_notifiers returns at once (l.2270);
+           the flag is cleared again whether or not the assignment raised *)
+        match e_validate E v with
+        | None => (s, mkObs TraitError s [] [])
+        | Some w =>
+            match e_kind E with
+            | TEvent => (s, mkObs Ok s [] [])
+            | TNormal _ => (Some (new_value v w), mkObs Ok (Some (new_value v w)) [] [])
             end
         end
     | Assign v =>
